@@ -1,0 +1,76 @@
+//go:build verif
+// +build verif
+
+package forwarder
+
+import (
+	"context"
+	"fmt"
+	"sort"
+	"sync/atomic"
+
+	"github.com/logrange/logrange/api"
+	"github.com/logrange/logrange/pkg/storage"
+)
+
+// VC18Sup is the real Forwarder with its periodic jobs driven by the caller instead of by tickers
+// (verification harness, property C18): Init is Forwarder.init, Sync is one tick of runSyncWorkers,
+// Persist one tick of runPersistState. Workers and sinks are the real ones (sink.NewSink).
+type VC18Sup struct {
+	f *Forwarder
+}
+
+// VC18WorkerInfo describes one entry of the forwarder's worker map
+type VC18WorkerInfo struct {
+	Name     string
+	Desc     string // identity of the descriptor the worker delivers for
+	Current  bool   // that descriptor is the one the forwarder holds (and persists) under the name
+	State    int32  // worker.state: 0 running, 1 stopping, 2 stopped
+	Position string // position of the worker's descriptor
+}
+
+func VC18NewSup(cfg *Config, cli api.Client, st storage.Storage) (*VC18Sup, error) {
+	f, err := NewForwarder(cfg, cli, st)
+	if err != nil {
+		return nil, err
+	}
+	return &VC18Sup{f: f}, nil
+}
+
+// Init is Forwarder.init: loadState, then one sync with the configuration given to NewForwarder
+func (s *VC18Sup) Init(ctx context.Context) error { return s.f.init(ctx) }
+
+// Sync is the body of the runSyncWorkers loop: Config.Reload, then sync
+func (s *VC18Sup) Sync(ctx context.Context) (bool, error) {
+	newFlag, err := s.f.cfg.Reload()
+	s.f.sync(ctx)
+	return newFlag, err
+}
+
+// Persist is the body of the runPersistState loop
+func (s *VC18Sup) Persist() error { return s.f.persistState() }
+
+// Close is Forwarder.Close
+func (s *VC18Sup) Close() error { return s.f.Close() }
+
+// Workers lists the worker map, by name
+func (s *VC18Sup) Workers() []VC18WorkerInfo {
+	ws := s.f.workers.Load().(workers)
+	ds := s.f.getDescs()
+	res := make([]VC18WorkerInfo, 0, len(ws))
+	for name, w := range ws {
+		res = append(res, VC18WorkerInfo{Name: name, Desc: fmt.Sprintf("%p", w.desc), Current: ds[name] == w.desc,
+			State: atomic.LoadInt32(&w.state), Position: w.desc.getPosition()})
+	}
+	sort.Slice(res, func(i, j int) bool { return res[i].Name < res[j].Name })
+	return res
+}
+
+// Descs lists the descriptors the forwarder holds: name -> position
+func (s *VC18Sup) Descs() map[string]string {
+	res := make(map[string]string)
+	for name, d := range s.f.getDescs() {
+		res[name] = d.getPosition()
+	}
+	return res
+}
